@@ -7,6 +7,7 @@ From Coq Require Import List ZArith NArith Bool Lia.
 From NV Require Import Bytes UcDefs GenUcTables RenDefs ShapeDefs ShapeProps CLite CLiteProps GenCFuncs TrUc TrUcTab.
 Import ListNotations.
 Local Open Scope Z_scope.
+Local Notation nthz := ShapeProps.nthz.     (* CLiteProps has an nthz for int arrays *)
 
 (* ------------------------------------------------------------------ the table in memory *)
 (* struct achar { unsigned c, s, i, m, f; }: five consecutive cells per row *)
@@ -32,7 +33,7 @@ Qed.
 Lemma achars_ok : atab_ok achars.
 Proof. apply atab_okb_sound. vm_compute. reflexivity. Qed.
 
-Lemma nthz_ok tab i : atab_ok tab -> arow_ok (nthz tab i).
+Lemma arow_nthz_ok tab i : atab_ok tab -> arow_ok (nthz tab i).
 Proof.
   intro H. unfold nthz. destruct (Nat.lt_ge_cases (Z.to_nat i) (length tab)) as [L|L].
   - unfold atab_ok in H. rewrite Forall_forall in H. apply H. apply nth_In. exact L.
@@ -223,7 +224,7 @@ Proof.
     { pose proof (Z.div_mod (h + l) 2 ltac:(lia)). pose proof (Z.mod_pos_bound (h + l) 2 ltac:(lia)). lia. }
     set (mid := (h + l) / 2) in *.
     destruct (load_arow m G_achars tab mid Hm ltac:(lia)) as [LA _].
-    destruct (nthz_ok tab mid Hok) as [OA _].
+    destruct (arow_nthz_ok tab mid Hok) as [OA _].
     rewrite !Z.add_0_l. rewrite LA. xstep. rewrite (wrap_U32_fld _ OA). rewrite <- Huc.
     destruct (a_c (nthz tab mid) =? uc); xstep.
     + injection Hb as <-. eexists; split; reflexivity.
@@ -266,7 +267,7 @@ Proof.
   destruct (load_arow m G_achars achars (Z.of_nat i) (achars_at m Hg)) as [A [_ [C [D E]]]].
   { split; [apply Nat2Z.is_nonneg|apply Nat2Z.inj_lt; exact Hi]. }
   unfold nthz in *. rewrite Nat2Z.id in *. repeat split; try assumption.
-  all: pose proof (nthz_ok achars (Z.of_nat i) achars_ok) as K; unfold nthz in K; rewrite Nat2Z.id in K; apply K.
+  all: pose proof (arow_nthz_ok achars (Z.of_nat i) achars_ok) as K; unfold nthz in K; rewrite Nat2Z.id in K; apply K.
 Qed.
 
 Ltac fld_off := change (1 * 2) with 2; change (1 * 3) with 3; change (1 * 4) with 4.
